@@ -147,6 +147,17 @@ func init() {
 						Links: []eLink{{Tg: []eTarget{{V: "ARGS_GET", K: "-", X: []string{gen.Field("x1"), gen.Field("x2"), gen.Field("x3")}}}, Op: &eOp{N: "streq", A: gen.Field("x")}, Tfs: []string{}, NA: []eNAct{}}}}},
 					base.Rules...)
 			}
+			sharedOp := i%3 != 2
+			if sharedOp {
+				// operators built once and evaluated by every transaction of the WAF: a list of several networks /
+				// phrases, the variants hit different entries (not the first one), so any per-evaluation
+				// bookkeeping inside the shared operator is exercised concurrently
+				base.Rules = append(base.Rules,
+					eRule{ID: 8, Ph: 1, Mk: "-", Rt: "-", Sa: "-", Sev: -1, Tags: []string{}, Log: true, Audit: true,
+						Links: []eLink{{Tg: []eTarget{{V: "ARGS_GET", K: gen.Field("ip"), X: []string{}}}, Op: &eOp{N: "ipMatch", A: gen.Field("10.0.0.0/8,192.168.1.0/24,1.2.3.4,172.16.0.0/12")}, Tfs: []string{}, NA: []eNAct{}}}},
+					eRule{ID: 9, Ph: 1, Mk: "-", Rt: "-", Sa: "-", Sev: -1, Tags: []string{}, Log: true, Audit: true,
+						Links: []eLink{{Tg: []eTarget{{V: "ARGS_GET", K: gen.Field("ip"), X: []string{}}}, Op: &eOp{N: "pm", A: gen.Field("10.1 168.1 2.3.4 16.5")}, Tfs: []string{}, NA: []eNAct{}}}})
+			}
 			args := []string{strconv.Itoa(4 + c.r.Intn(12)), strconv.Itoa(20 + c.r.Intn(60))}
 			for k := 0; k < 3; k++ {
 				v := *base
@@ -157,6 +168,9 @@ func init() {
 					if k != 1 {
 						v.Get = append(v.Get, [2]string{gen.Field("trig"), gen.Field("1")})
 					}
+				}
+				if sharedOp {
+					v.Get = append(v.Get, [2]string{gen.Field("ip"), gen.Field([]string{"192.168.1.7", "1.2.3.4", "172.16.5.5", "10.1.2.3", "9.9.9.9"}[(k+c.r.Intn(2))%5])})
 				}
 				b, _ := json.Marshal(&v)
 				args = append(args, string(b))
